@@ -92,7 +92,19 @@ func scenarioC18(r *Run) {
 			continue
 		}
 		sm := &sharedMsg{w: w}
-		if !foreign && t.Bool(1, 2, "c18.constructed") {
+		if !foreign && t.Bool(1, 3, "c18.constructed.fresh") {
+			// a message built by hand (labels spelt with any Go integer type)
+			// that has only been signed so far: never encoded, never verified,
+			// so every other first-use effect of a read path happens inside
+			// the block
+			fresh, ferr := r.LibIssue(spec, Spelling{T: t, Labels: true, Values: true, AlgLabel: true}, t.Bool(1, 2, "c18.fresh.typed"), ent, nil, false)
+			if ferr != nil {
+				continue
+			}
+			sm.w = &Wire{Kind: w.Kind, Dec: w.Dec, B: w.B, Spec: spec, Desc: w.Desc}
+			sm.m1, sm.ms, sm.desc = fresh.M1, fresh.MS, "constructed-fresh "+spec.Kind.String()
+			r.Probe("shared-message-never-encoded-before-block")
+		} else if !foreign && t.Bool(1, 2, "c18.constructed") {
 			sm.m1, sm.ms, sm.desc = is.M1, is.MS, "constructed "+spec.Kind.String()
 		} else {
 			rc, err := r.Decode(spec.Kind, w.B)
@@ -454,6 +466,10 @@ func scenarioC18(r *Run) {
 			}
 		}
 	}
+	// inside the block the tasks must not touch the tape: map ranges follow the
+	// canonical order there (and in the reference runs afterwards, so that the
+	// two are comparable)
+	SetPermHook(nil)
 	res := RunConcurrent(cfg, tasks, monitor)
 	if res.Aborted {
 		// a task blocked outside a yield point (a lock held by a parked task):
